@@ -12,6 +12,7 @@ func main() {
 		c19.RunSignBytes(o) // (b) sign bytes of certificates / consensus messages
 		c19.RunDecoders(o)  // (c) decoders of untrusted bytes and the handlers behind them
 		c19.RunCritical(o)  // (c) unknown fields / oversize lists at every nesting position of the critical messages
+		c19.RunWrappers(o)  // (b) RLP-backed transactions: one signed Ethereum payload, one wrapper
 		c19.RunHandlers(o)  // (c) signed-but-malformed consensus messages through the real bft.HandleMessage
 	})
 }
